@@ -48,9 +48,16 @@ def classify(res, linemap):
         line = prim[0]['line_start'] if prim else None
         fid = None
         clause = None
+        def _clause_of(sp):
+            # a clause marker sits on the last line of its (possibly multi-line) ensures expression
+            for n in range(sp['line_start'], sp.get('line_end', sp['line_start']) + 1):
+                c = linemap['clauses'].get(n)
+                if c:
+                    return c
+            return None
         for s in spans:
             f = G.fn_at_line(linemap, s['line_start'])
-            c = linemap['clauses'].get(s['line_start'])
+            c = _clause_of(s)
             if c and not s.get('is_primary'):
                 clause = c[0]
             if f and s.get('is_primary'):
@@ -61,7 +68,7 @@ def classify(res, linemap):
                 if f:
                     fid = f
         for s in spans:
-            c = linemap['clauses'].get(s['line_start'])
+            c = _clause_of(s)
             if c and clause is None:
                 clause = c[0]
         low = msg.lower()
